@@ -1,6 +1,7 @@
 package introspection
 
 import (
+	"bytes"
 	"encoding/json"
 	"fmt"
 	"io"
@@ -56,7 +57,12 @@ func (j *JsonConverter) importSchema() error {
 func (j *JsonConverter) importFullType(fullType *FullType) (err error) {
 	switch fullType.Kind {
 	case SCALAR:
-		j.doc.ImportScalarTypeDefinition(fullType.Name, fullType.Description)
+		var directiveRefs []int
+		if fullType.SpecifiedByURL != nil {
+			value := j.importStringValue(*fullType.SpecifiedByURL)
+			directiveRefs = append(directiveRefs, j.doc.ImportDirective(SpecifiedByDirectiveName, []int{j.doc.ImportArgument("url", value)}))
+		}
+		j.doc.ImportScalarTypeDefinitionWithDirectives(fullType.Name, fullType.Description, directiveRefs)
 	case OBJECT:
 		err = j.importObject(fullType)
 	case ENUM:
@@ -271,6 +277,21 @@ func (j *JsonConverter) importDefaultValue(defaultValue *string) (out ast.Defaul
 		IsDefined: true,
 		Value:     importer.ImportValue(value, from, j.doc),
 	}, nil
+}
+
+// importStringValue imports s as a quoted string value, escaped so that it denotes s.
+func (j *JsonConverter) importStringValue(s string) ast.Value {
+	buf := &bytes.Buffer{}
+	enc := json.NewEncoder(buf)
+	enc.SetEscapeHTML(false)
+	_ = enc.Encode(s)
+	quoted := bytes.TrimSpace(buf.Bytes())
+	value := ast.Value{
+		Kind: ast.ValueKindString,
+		Ref:  j.doc.ImportStringValue(quoted[1:len(quoted)-1], false),
+	}
+	j.doc.AddValue(value)
+	return value
 }
 
 func (j *JsonConverter) importDeprecatedDirective(reason *string) (ref int) {
